@@ -6,9 +6,9 @@
    here: the decoder is total (classifies every byte string) and lengths that are not a multiple of
    four are never accepted.  With Emitting the datagrams are printed and fed to the real receiver. *)
 EXTENDS Osc, Json
-CONSTANTS NFaults, Emitting
-VARIABLES b, n
-vars == <<b, n>>
+CONSTANTS NFaults, Emitting, MaxWrap
+VARIABLES b, n, wr
+vars == <<b, n, wr>>
 I(hi, lo) == [t |-> "i", hi |-> hi, lo |-> lo]
 M(a, args) == [t |-> "m", a |-> a, args |-> args]
 Bn(el) == [t |-> "B", time |-> [t |-> "none"], el |-> el]
@@ -20,16 +20,20 @@ Bases == {M(<<47, 97>>, <<I(0, 1), [t |-> "s", b |-> <<97, 98>>], [t |-> "b", b 
           Bn(<<Bn(<<M(<<47, 97>>, <<>>)>>)>>)}
 Words(len) == {I(0 - 1, 65532), I(0 - 1, 65535), I(0 - 1, 65516), I(0 - 1, 65504), I(0, 0), I(32767, 65535), I(0, len + 4), I(0, 3)}
 SetWord(s, pos, w) == [i \in 1..Len(s) |-> IF i >= pos /\ i < pos + 4 THEN I32(w.hi, w.lo)[i - pos + 1] ELSE s[i]]
-Init == n = 0 /\ b \in {Enc(v, Off) : v \in Bases}
-Fault == n < NFaults /\ n' = n + 1
+Init == n = 0 /\ wr = 0 /\ b \in {Enc(v, Off) : v \in Bases}
+Fault == n < NFaults /\ wr <= 1 /\ n' = n + 1 /\ wr' = wr
 Trunc == Fault /\ \E k \in 0..(Len(b) - 1) : b' = SubSeq(b, 1, k)
 Word == Fault /\ \E j \in 0..((Len(b) \div 4) - 1), w \in Words(Len(b)) : b' = SetWord(b, 4 * j + 1, w)
 ByteF == Fault /\ \E k \in 1..Len(b), c \in {0, 255, 91, 93, 120, 44, 47} : b' = [b EXCEPT ![k] = c]
 Extend == Fault /\ \E x \in {<<0, 0, 0, 0>>, <<1>>, <<0, 0, 0, 8, 47, 97, 0, 0, 44, 0, 0, 0>>, <<255, 255, 255, 252>>} : b' = b \o x
-Next == Trunc \/ Word \/ ByteF \/ Extend
+\* degenerate rather than damaged: the datagram wrapped in one more bundle, again and again (deep nesting)
+Wrap == /\ n = 0 /\ wr < MaxWrap /\ wr' = wr + 1 /\ n' = n
+        /\ b' = <<35, 98, 117, 110, 100, 108, 101, 0>> \o Immediately \o Size32(Len(b)) \o b
+Next == Trunc \/ Word \/ ByteF \/ Extend \/ Wrap
 Spec == Init /\ [][Next]_vars
 DecTotal == Dec(b).k \in {"msg", "bundle", "bad", "grey", "greymsg"}
 UnalignedIsBad == Len(b) % 4 # 0 => Dec(b).k = "bad"
+\* undamaged datagrams - however deeply wrapped - stay well-formed
 ValidStaysValid == n = 0 => Dec(b).k \in {"msg", "bundle"}
 InvEmit == ~Emitting \/ PrintT(<<"DGRAM", ToJson([b |-> b, k |-> Dec(b).k])>>)
 =============================================================================
